@@ -139,6 +139,8 @@ func TestVerifC08(t *testing.T) {
 		c08Scenario("pipeline-tcp-seq2-blackhole", tOpt{Kind: "pipeline-tcp", Callers: 1, Seq: 2, Srv: srvOpt{Silent: true}}, d, false),
 		c08Scenario("reuse-seq2-blackhole", tOpt{Kind: "reuse", Callers: 1, Seq: 2, Srv: srvOpt{Silent: true}}, d, false),
 		c08Scenario("pipeline-udp-c2-seq2-blackhole", tOpt{Kind: "pipeline-udp", Callers: 2, Seq: 2, Srv: srvOpt{Silent: true}}, d2, false),
+		// five idle, healthy connections; then the server goes mute and one more query with a 3 s deadline arrives
+		c08Scenario("reuse-c5+1-idle-pool-then-mute", tOpt{Kind: "reuse", Callers: 6, StageTwo: 1, Srv: srvOpt{AnswerAll: true, MuteAfter: 5}, CtxMode: []int{0, 0, 0, 0, 0, 1}, FreezeStage1: true}, 1, false),
 		c08Scenario("reuse-seq3-kill", tOpt{Kind: "reuse", Callers: 1, Seq: 3, Srv: kill}, d, false),
 		c08Scenario("reuse-c2-seq2-kill", tOpt{Kind: "reuse", Callers: 2, Seq: 2, Srv: kill}, d2, false),
 		c08Scenario("pipeline-tcp-c2-seq2-kill", tOpt{Kind: "pipeline-tcp", Callers: 2, Seq: 2, Srv: kill}, d2, false),
